@@ -309,6 +309,15 @@ theorem cinv_exec (c : CoreSt) (hinv : CInv c) (op : CoreOp) (hv : ValidCoreOp o
   | tick => exact cinv_tick c hinv
   | rekey n t => exact (cinv_rekey c hinv n t).1
   | rotroot => exact (cinv_rotroot c hinv).1
+  | rekeyFail n t =>
+    simp only [CoreSt.exec]
+    split
+    · exact hinv
+    · split
+      · cases hinv with
+        | uninit hp hb hs => exact CInv.uninit hp hb hs
+        | live rk KR h hc hh si sub sy sk => exact CInv.live rk KR h hc hh si sub sy sk
+      · exact hinv
   | sealC =>
     simp only [CoreSt.exec]
     cases hinv with
